@@ -216,7 +216,10 @@ def build_driver(src, flavour="ndebug", extra_flags=(), extra_deps=(), cxx=None)
         cmd = [cxx] + flags + ["-I" + os.path.join(REPO, "include"), "-I" + os.path.join(VERIF, "drivers"), srcp, "-o", out + ".tmp"]
         r = subprocess.run(cmd, stdout=subprocess.PIPE, stderr=subprocess.STDOUT, text=True, timeout=3000)
         if r.returncode != 0:
-            return None, " ".join(cmd) + "\n" + r.stdout[-200000:]
+            # the tail of the compiler output, plus every line of the driver source it refers to (generated drivers stub out
+            # the rows the library rejects at compile time, and must see all of them in one pass)
+            refs = sorted(set(re.findall(re.escape(os.path.basename(srcp)) + r":(\d+):", r.stdout)), key=int)
+            return None, " ".join(cmd) + "\n" + r.stdout[-200000:] + "\n# source lines referred to: " + " ".join("%s:%s:" % (os.path.basename(srcp), n) for n in refs)
         os.replace(out + ".tmp", out)
     # keep the cache small: keep the 3 most recent binaries of the same driver/flavour/flags
     prefix = stem
